@@ -76,6 +76,8 @@ func NewProxy() *Proxy {
 			Proxy:                 http.ProxyFromEnvironment,
 			TLSHandshakeTimeout:   10 * time.Second,
 			ExpectContinueTimeout: time.Second,
+			// A proxy must relay the origin's content coding untouched.
+			DisableCompression: true,
 		},
 		timeout: 5 * time.Minute,
 		closing: make(chan bool),
